@@ -246,7 +246,9 @@ class ViralGen:
         if len(node.ids) > 1:
             choices += ['sub']
         if node.numeric and node.meas:
-            choices += ['unary', 'scalar', 'scalar', 'binary', 'binary', 'binary', 'aggr', 'aggr', 'aggr', 'aggrc']
+            choices += ['aggr', 'aggr', 'aggr', 'aggrc']
+        if node.numeric and node.meas and node.ids:      # the engine rejects operators on datasets without identifiers
+            choices += ['unary', 'scalar', 'scalar', 'binary', 'binary', 'binary']
             if len(node.meas) == 1 and last:
                 choices += ['cmp', 'bincmp']
         if self.allow:
@@ -330,7 +332,8 @@ class ViralGen:
             f, sxop = r.choice([('abs(%s)', 'abs'), ('-%s', 'neg'), ('+%s', 'plus')])
             return f % X, '(vmapm %s (un %s hole) _)' % (dsx, sxop), N(), k
         if k == 'scalar':
-            op, sxop = r.choice([('+', 'add'), ('-', 'sub'), ('*', 'mul')])
+            # products of products overflow the engine's DECIMAL scale (not a viral matter): multiply inputs only
+            op, sxop = r.choice([('+', 'add'), ('-', 'sub'), ('*', 'mul')] if X.startswith('DS_') else [('+', 'add'), ('-', 'sub')])
             c = r.choice([1, 2, 3, Fraction(5, 2)])
             left = r.random() < 0.7
             body = '(bin %s hole (const %s))' % (sxop, enc_value(c)) if left else '(bin %s (const %s) hole)' % (sxop, enc_value(c))
@@ -344,7 +347,7 @@ class ViralGen:
             return ('%s %s %d' % (X, op, c), '(vmapm %s (bin %s hole (const (i %d))) "bool_var")' % (dsx, sxop, c),
                     N(meas=[('bool_var', 'Boolean')], numeric=False), k)
         if k in ('binary', 'bincmp'):
-            cands = [o for o in nodes if o.meas == node.meas and o.numeric and
+            cands = [o for o in nodes if o.meas == node.meas and o.numeric and o.ids and
                      (set(o.ids) <= set(node.ids) or set(node.ids) <= set(o.ids))]
             if not cands:
                 return None
@@ -354,7 +357,7 @@ class ViralGen:
             names = [v for v, _ in a.viral] + [v for v, _ in b.viral if v not in [x for x, _ in a.viral]]
             viral = [(v, dict(a.viral + b.viral)[v]) for v in names]
             if k == 'binary':
-                op, sxop = r.choice([('+', 'add'), ('-', 'sub'), ('*', 'mul')])
+                op, sxop = r.choice([('+', 'add'), ('-', 'sub'), ('*', 'mul')] if a.name.startswith('DS_') and b.name.startswith('DS_') else [('+', 'add'), ('-', 'sub')])
                 return ('%s %s %s' % (a.name, op, b.name), '(vzip (ds %s) (ds %s) (bin %s hole hole2) _)' % (a.name, b.name, sxop),
                         N(ids=ids, viral=viral), k)
             op, sxop = r.choice([('=', 'eq'), ('<', 'lt'), ('>=', 'ge')])
